@@ -29,14 +29,26 @@ CHECK = Check(
         "S = k·Q^m + dead within massBalanceLimit as a volume or as the flow increment massBalanceLimit/Δt; Muskingum budget 1e-9 × largest term",
     ],
     assumptions=[
-        "rounded theorems (OW.Props.Rounded.C11): outflow >= 0 needs only dt >= 0; storage >= 0 is proved for the zero-bias set-up (|bias| < 0.001, k >= 0, dead storage >= 0)",
+        "rounded theorems (OW.Props.Rounded.C11): outflow >= 0 needs only dt > 0 (dt = 0 is excluded: RNum division is total, x/0 = 0, whereas the Go code divides by zero "
+        "and panics on the NaN); storage >= 0 is proved for the zero-bias set-up (|bias| < 0.001, k >= 0, dead storage >= 0), dt > 0",
         "StorageRouting: Δt > 0, previous storage ≥ 0, inflow, lateral ≥ 0, dead storage ≥ 0, k ≥ 0, bias < 0.999 (theorems state per exit "
-        "path what they need); the S–Q theorem is for zero bias on the exits that report SIndex",
+        "path what they need); sq_calcOutflow / sq_calcOutflow_converged: zero bias, m ≤ 1, Δt > 0 (sq_calcOutflow_bias: any bias < 0.999, relation S = sIndex(q) with the index-flow definition q = bias·(inflow+lateral) + (1−bias)·outflow); sq_full_drain: previous storage ≥ 0, lateral ≥ 0, bias < 0.999, Δt > 0",
         "Muskingum: 2K(1−X)+Δt ≠ 0 (weights defined); steady/budget need nothing else; the stable region is only needed for non-negativity, "
-        "which the property does not claim",
-        "Lag: buffer at least as long as int(timeLag) ≥ 0 (a shorter state row makes the Go code index out of range — modelled as an error)",
+        "which the property does not claim. Event volume: event_volume (exact equality) needs the run to END IN THE STATE IT STARTED FROM, which only steady runs do; "
+        "for an event proper — start at rest, any series, then n+1 dry steps — event_volume_remainder gives the exact undelivered volume (K(1−X) − Δt/2)·a3^n·O1 and "
+        "event_volume_limit its convergence to 0 (hypotheses K(1−X) > 0, Δt > 0, which every point of the stable region with Δt > 0 satisfies: |a3| < 1)",
+        "Lag: buffer at least as long as int(timeLag) ≥ 0 — a hypothesis of lag_spec_outflow / lag_run_spec (stated with [i]?, no default value stands in for a missing cell); "
+        "a shorter state row makes the Go code index out of range — modelled as an error (lag_run_short)",
     ],
     partial=[
+        "storage-discharge relation, restriction by exit: for the record that calcOutflow RETURNS, S = k·q^m + dead (zero bias, m ≤ 1; S = sIndex(q) for any bias) and "
+        "|q − outflow|·Δt ≤ |residual| are proved ONLY on the four exits that report the index storage (balanced-at-minqi, prev-qi, mid-qi, root: sq_calcOutflow, "
+        "sq_calcOutflow_bias), with |residual| ≤ massBalanceLimit on balanced-at-minqi, < massBalanceLimit on prev-qi / mid-qi and on root ONLY IF FindRoot returned through "
+        "its tolerance test (sq_calcOutflow_converged takes that as a hypothesis; it can fail: next entry), and within massBalanceLimit on full-drain-at-maxqi "
+        "(sq_full_drain: outflow > 0, storage 0, S(maxQI) < massBalanceLimit). On the two zero-outflow exits the code reports the water-balance storage and NO "
+        "storage-discharge relation is claimed: on zero-at-minqi it is false (sq_zero_at_minqi: the reported storage lies at least massBalanceLimit BELOW the index "
+        "storage S(minQI) — a reach filling up below its dead / index storage releases nothing); zero-maxqi-le-minqi cannot be taken in exact arithmetic "
+        "(zero_maxqi_unreachable; reached by the generator only through rounding at 1e14 m³)",
         "root_converges_partial: on the root-finder exit |residual| < massBalanceLimit is proved when interval halving alone "
         "suffices within the 20 iterations (residual non-decreasing and L-Lipschitz with L·(maxQI−minQI)/2^20 < 1e-3). The statement "
         "WITHOUT that hypothesis is FALSE for the code: root_not_converged_counterexample / run_not_converged_counterexample (bias 0, "
@@ -57,11 +69,12 @@ CHECK = Check(
 META = dict(
     category="proof",
     text="Lean 4 theorems over line-by-line models of the three routing kernels: Muskingum weights sum to one, steady flow passes, "
-         "exact discrete volume budget for every series (lateral included) and its event-volume corollary; Lag = inflow delayed by "
+         "exact discrete volume budget for every series (lateral included), the exact undelivered volume after an event and n dry steps and its geometric decay to zero (event volume); Lag = inflow delayed by "
          "int(timeLag) steps with the carried-over buffer, any lag and length, final buffer = last lag elements of buffer ++ inflow "
          "(proved through the in-place loops of the code); StorageRouting: per exit path of calcOutflow the water balance "
-         "(exact or within the accepted residual), outflow ≥ 0, storage ≥ 0, and S = k·q^m + dead on the root-found path via the C18 "
-         "FindRoot theorems; what the 20-iteration root search guarantees unconditionally, and a proved counter-example (m = 0.05) to "
+         "(exact or within the accepted residual; run_balance carries err ≤ max 0 δ on every root step), outflow ≥ 0, storage ≥ 0, and for the record calcOutflow returns "
+         "S = k·q^m + dead with |q − outflow|·Δt within the residual on the four exits reporting the index storage (root via the C18 "
+         "FindRoot theorems, tolerance only when it converged) and within tolerance on the full-drain exit; what the 20-iteration root search guarantees unconditionally, and a proved counter-example (m = 0.05) to "
          "\"20 iterations always reach the tolerance\", confirmed on the real code (known finding). Models tied to the code by differential execution on every run.",
     design_ref="DESIGN.md §6 C11",
     note="Repairs modelled: Muskingum carries inflow+lateral, Lag buffer handling, StorageRouting initial storage (already in /repo); "
